@@ -209,3 +209,28 @@ func TestReplayedSignedChunkUploadOntoAnotherKeyRefused(t *testing.T) {
 		}
 	}
 }
+
+// x-amz-* headers that the signature does not cover were honoured: a captured, correctly signed empty PUT, sent again
+// with an added x-amz-copy-source header, performed a server-side copy of another object; added x-amz-meta-* and
+// x-amz-tagging headers were stored.
+func TestUnsignedAmzHeaderAddedToACapturedRequestIsRefused(t *testing.T) {
+	g := gwtest.Start(t, gwtest.Options{})
+	g.MustStatus(g.Put(g.RootC, "/bkt", nil, nil), 200, "create bucket")
+	g.MustStatus(g.Put(g.RootC, "/bkt/secret", []byte("content-of-another-object"), nil), 200, "put secret")
+	ok := g.Do(gwtest.Req{Method: "PUT", Target: "/bkt/public", Cred: g.RootC})
+	if ok.Status != 200 {
+		t.Fatalf("signed empty PUT: %s", ok)
+	}
+	hdr := map[string]string{}
+	for k, v := range ok.Sent {
+		hdr[k] = v
+	}
+	hdr["X-Amz-Copy-Source"] = "bkt/secret"
+	hdr["X-Amz-Meta-Role"] = "admin"
+	r := g.Do(gwtest.Req{Method: "PUT", Target: "/bkt/public", NoAuth: true, Header: hdr})
+	got := g.Get(g.RootC, "/bkt/public", nil)
+	if r.Status/100 == 2 || string(got.Body) == "content-of-another-object" || got.Header.Get("X-Amz-Meta-Role") != "" {
+		t.Errorf("the captured request with two added x-amz-* headers answered %d; /bkt/public now holds %q with x-amz-meta-role %q",
+			r.Status, got.Body, got.Header.Get("X-Amz-Meta-Role"))
+	}
+}
